@@ -171,6 +171,10 @@ def contains(container, item):
             return z3.And(item.ty.is_some(item.term), z3.Select(container.term, item.ty.val(item.term)))
         return z3.Select(container.term, coerce(item, ty.elem).term)
     if isinstance(ty, MapT):
+        if isinstance(item, NoneVal):
+            return z3.BoolVal(False)
+        if isinstance(item, Val) and isinstance(item.ty, Opt) and item.ty.inner == ty.key:
+            return z3.And(item.ty.is_some(item.term), ty.opt.is_some(z3.Select(container.term, item.ty.val(item.term))))
         return ty.opt.is_some(z3.Select(container.term, coerce(item, ty.key).term))
     if isinstance(ty, SeqT):
         return z3.Contains(container.term, z3.Unit(coerce(item, ty.elem).term))
